@@ -22,6 +22,13 @@ NS = [1, 2, 3, 7, 7, 50]
 
 
 def gen_case(rnd, i, thorough):
+    case = _gen_case(rnd, i, thorough)
+    if rnd.random() < 0.25:
+        case["warmup"] = rnd.choice([1, 2, 5, 11])
+    return case
+
+
+def _gen_case(rnd, i, thorough):
     model = bp.ALL_MODELS[i % len(bp.ALL_MODELS)]
     N = rnd.choice(NS + ([1000] if thorough and rnd.random() < 0.1 else []))
     case = {"model": model, "N": N, "seed": rnd.randrange(10 ** 6)}
@@ -125,6 +132,17 @@ def check_case(ctx, case):
         ctx.fail(f"{model}: constructor raised {og.etype} on a valid parameter set", case, {"msg": str(og.exc)[:300]})
         return
     g = og.value
+    if case.get("warmup"):
+        # the SAME generator object is first asked for another profile (other size, plain entry point); what is judged
+        # below is its second answer - anything the first request left behind in the object shows there
+        try:
+            if model == "ClusteredSpatial":
+                g.generate_profile_with_dict({c: (k + 1) % 3 for k, c in enumerate(case["by_cand"])})
+            else:
+                g.generate_profile(case["warmup"])
+            ctx.count("warmup_requests_on_same_generator")
+        except Exception:  # noqa  (a failing request is judged when it is the case itself)
+            ctx.count("warmup_raised")
     random.seed(case["seed"])  # generation starts from the same stream whatever the construction consumed
     np.random.seed(case["seed"] % (2 ** 32))
     blocs = list(p.get("bloc_voter_prop", {}))
